@@ -48,6 +48,7 @@ const fileDefOutIndex = 1
 const fileDefInIndex = 2
 const fileDefaultWriteBuffer = 4096
 const fileDefaultReadBuffer = 4096
+const fileMaxWriteBuffer = 1 << 20
 
 func checkFile(L *LState) *lFile {
 	ud := L.CheckUserData(1)
@@ -629,6 +630,9 @@ func fileSetVBuf(L *LState) int {
 		}
 	case "full", "line": // TODO line buffer not supported
 		bufsize := L.OptInt(3, fileDefaultWriteBuffer)
+		if bufsize > fileMaxWriteBuffer { // the size is a hint (setvbuf(f, NULL, mode, size)): nothing that large is allocated
+			bufsize = fileMaxWriteBuffer
+		}
 		switch file.Type() {
 		case lFileFile:
 			file.writer = bufio.NewWriterSize(file.fp, bufsize)
